@@ -14,8 +14,8 @@ RULE = ("hostile byte strings (truncated pushes of every width, PUSHDATA4 with l
         "pushes after OP_n, invalid UTF-8 after OP_RETURN, witness-program and P2PK look-alikes, 10-100 kB fields, random bytes/tokens) "
         "(a) through the real evaluator in-process with catch_unwind on debug AND release builds x 8 coins: no panic, no Error pattern; "
         "(b) placed in scriptPubKey / scriptSig / witness items of otherwise valid chains, all five callbacks run on debug and release: "
-        "exit status 0, no panic text, and every output equals the reference model (so rows and figures not derived from the hostile "
-        "field are unchanged). distinct = (field, family, coin rules, build, callback) signatures")
+        "exit status 0, no panic text, and every output equals the reference model; for hostile scriptPubKeys the values derived "
+        "from the hostile script itself (its type, address, payload line) are masked, they belong to C05/C06/C16. distinct = (field, family, coin rules, build, callback) signatures")
 
 FIELDS = ["spk", "sig", "wit"]
 
@@ -25,6 +25,68 @@ def hostile_pool(rng, big):
     for g in (sg.fam_hostile(rng, big=big), sg.fam_random_tokens(rng, 300), sg.fam_random_bytes(rng, 100, 3000), sg.fam_leading(rng)):
         pool.extend(g)
     return pool
+
+
+def opreturn_exp(chain, coin, hostile):
+    """expected opreturn lines; lines of hostile OP_RETURN scripts are unpinned here (C16 owns them)"""
+    from ..script_ref import ANY, opreturn_text
+    out = []
+    for h, b in chain:
+        for t in b.txs:
+            for o in t.outs:
+                txt = opreturn_text(o.script, coin)
+                if o.script in hostile and o.script[:1] == b"\x6a":
+                    txt = ANY
+                if txt is None:
+                    continue
+                out.append((model.OPRETURN_CANON % (h, t.txid_hex), txt))
+    return out
+
+
+def rejudge_spk(bad, cbname, p, dump, chain, coin, hostile):
+    """drops violations that only concern values derived from the hostile scriptPubKeys themselves"""
+    hhex = {s.hex() for s in hostile}
+    hostile_outpoints = {(t.txid_hex, str(n)) for _, b in chain for t in b.txs for n, o in enumerate(t.outs) if o.script in hostile}
+    keep = []
+    for sig, det in bad:
+        if cbname == "csvdump" and sig == "csv:tx_out":
+            got = [t for n, t in harness.read_dump(dump).items() if n.startswith("tx_out-")]
+            exp = model.csv_expected(chain, coin)["tx_out"]
+
+            def mask(text):
+                out = []
+                for ln in text.split("\n"):
+                    f = ln.split(";")
+                    out.append(";".join(f[:4]) if len(f) == 5 and f[3] in hhex else ln)
+                return out
+            if got and mask(got[0]) == mask(exp):
+                continue
+        elif cbname == "unspentcsvdump" and sig in ("unspent:rows", "unspent:totals"):
+            got = [t for n, t in harness.read_dump(dump).items() if n.startswith("unspent-")]
+            utxo, _ = model.utxo_expected(chain, coin)
+            exp_rows = sorted(r for r in model.unspent_rows(utxo) if tuple(r.split(";")[:2]) not in hostile_outpoints)
+            if got:
+                rows, _ = oracles.parse_rows(got[0], oracles.UNSPENT_HEADER)
+                if sorted(r for r in rows if tuple(r.split(";")[:2]) not in hostile_outpoints) == exp_rows:
+                    continue
+        elif cbname == "balances" and sig == "balances:rows":
+            got = [t for n, t in harness.read_dump(dump).items() if n.startswith("balances-")]
+            bal = {}
+            for _, b in chain:
+                pass
+            utxo, _ = model.utxo_expected(chain, coin)
+            clean = {k: v for k, v in utxo.items() if (k[0], str(k[1])) not in hostile_outpoints}
+            exp = model.balances_expected(clean)
+            if got:
+                rows, _ = oracles.parse_rows(got[0], oracles.BALANCES_HEADER)
+                have = dict(r.split(";") for r in rows if r.count(";") == 1)
+                if all(have.get(a) is not None and int(have[a]) >= val for a, val in exp.items()):
+                    continue
+        elif cbname == "simplestats" and sig == "stats:figure" and (det.startswith("type counts") or det.startswith("first occurrences")
+                                                                    or det.startswith("type lines") or det.startswith("share of")):
+            continue
+        keep.append((sig, det))
+    return keep
 
 
 def case(spec):
@@ -70,6 +132,7 @@ def case(spec):
             pass
         cb.add_block(txs=txs)
     chain = cb.chain()
+    hostile_scripts = {s for _, s in pick} if field == "spk" else set()
     work = harness.fresh(os.path.join(spec["work"], "c%d" % spec["n"]))
     d = os.path.join(work, "d")
     datadir.write_datadir(d, COINS[coin], harness.simple_layout(chain))
@@ -93,7 +156,11 @@ def case(spec):
         elif cbname == "simplestats":
             bad = oracles.check_stats(p, chain, coin)
         else:
-            bad = oracles.check_opreturn(p, chain, coin)
+            bad = oracles.check_opreturn(p, chain, coin, exp=opreturn_exp(chain, coin, hostile_scripts))
+        if field == "spk" and bad:
+            # C14 is about values NOT derived from the hostile field: the type / address / payload the tool derives from
+            # a hostile scriptPubKey itself belongs to C05/C06/C16. Re-judge with those derived values masked.
+            bad = rejudge_spk(bad, cbname, p, dump, chain, coin, hostile_scripts)
         v.extend(viol("disturbed:%s:%s" % (field, sig), "%s [coin=%s build=%s hostile field=%s]" % (det, coin, profile, field)) for sig, det in bad)
         for f in fams:
             shapes.add("%s|%s|%s|%s|%s" % (field, f, "btc" if COINS[coin].bitcoin_rules else "fork", profile, cbname))
